@@ -27,18 +27,35 @@ TRUSTED = [
 RULE = ("x86-64 C/assembly programs (calls, tail jumps, lea of objects, GOT loads, function-pointer tables, data pointers, TLS) linked by the working tree's wild "
         "(with --write-layout --write-trace, as wild's own tests do) and by GNU ld as static, PIE and shared; per binary: x vs x, x vs byte-identical copy, "
         "and ~12 single-site retargetings (call, lea/mov RIP-relative, GOT slot, data pointer) each to a different symbol of the same kind; "
-        "distinct by (binary, site, new target)")
+        "plus, per binary, a hand-written object with a .data table of 8-byte RELATIVE references (R_X86_64_PC64 `.quad sym - . + A`, R_X86_64_GOTOFF64 "
+        "`.quad sym@GOTOFF + A`) to named global functions/objects and ~6 corruptions of one word each: only the high 32 bits changed (+2^32, -2^32, one "
+        "flipped bit 32..63) or retargeted to another named symbol; linker-diff must report a difference (it does so under the key rel.<R>.<R>); "
+        "distinct by (binary, site, new target / corruption)")
 ASSUMPTIONS = ["x86-64 only on the implementation side (no AArch64/RISC-V/LoongArch64 execution environment for corrupted binaries is needed, but no "
                "cross-linked binaries are generated in the quick tier)",
                "a retargeting moves the referent to another named symbol of the same kind (function->function, object->object) at a different address"]
 
-LDIFF = os.path.join(runner.TARGET, "ldiff", "debug", "linker-diff")
+LDIFF_DIR = os.path.join(runner.BUILD_ROOT, "ldiff")     # per checkout (WILD_REPO runs build into .target/alt/<name>/ldiff)
+LDIFF = os.path.join(LDIFF_DIR, "debug", "linker-diff")
+WORKSPACE_CRATES = ["linker-diff", "linker-layout", "linker-trace", "linker-utils"]
 
 
 def build_ldiff():
-    with runner.Lock("cargo-ldiff"):
-        rc, out = runner.sh(["cargo", "build", "--offline", "--manifest-path", os.path.join(runner.REPO, "Cargo.toml"), "-p", "linker-diff",
-                             "--target-dir", os.path.join(runner.TARGET, "ldiff")])
+    """cargo names artifacts and dep-info by workspace-relative paths and decides freshness by mtime, so a target directory that was ever used for
+    ANOTHER checkout (a scratch copy with an edited, newer asm_diff.rs) keeps serving that checkout's linker-diff for /repo.  Hence: one target directory
+    per checkout, and a stamp naming the checkout whose sources built it; on a mismatch the workspace crates are rebuilt from scratch."""
+    with runner.Lock("cargo-ldiff" if runner.ALT is None else "cargo-ldiff-" + os.path.basename(runner.ALT)):
+        manifest = os.path.join(runner.REPO, "Cargo.toml")
+        stamp = os.path.join(LDIFF_DIR, "built-from")
+        if os.path.isdir(LDIFF_DIR) and (not os.path.exists(stamp) or open(stamp).read().strip() != runner.REPO):
+            args = ["cargo", "clean", "--offline", "--manifest-path", manifest, "--target-dir", LDIFF_DIR]
+            for c in WORKSPACE_CRATES:
+                args += ["-p", c]
+            runner.sh(args)
+        os.makedirs(LDIFF_DIR, exist_ok=True)
+        with open(stamp, "w") as f:
+            f.write(runner.REPO + "\n")
+        rc, out = runner.sh(["cargo", "build", "--offline", "--manifest-path", manifest, "-p", "linker-diff", "--target-dir", LDIFF_DIR])
     if rc != 0:
         raise runner.BuildError("cargo build of linker-diff failed:\n" + out[-3000:])
 
@@ -68,6 +85,43 @@ def gen_sources(r, i):
              "__attribute__((noinline)) u64 ext_f(u64 x) { return x + ext_a; }\n__attribute__((noinline)) u64 ext_g(u64 x) { return x ^ ext_b; }\n"
              "u64 driver(u64);\nvoid _start(void) { u64 v = driver(5); __asm__ volatile(\"syscall\" :: \"a\"(60), \"D\"(v & 0x7f)); }\n")
     return main, other
+
+
+def gen_rel64(r, nf, shared):
+    """Hand-written object with a .data table of 8-byte RELATIVE references to named global symbols (what `.quad sym - .` and the large code model's
+    `sym@GOTOFF` produce), kept alive through .init_array, with the reference to _GLOBAL_OFFSET_TABLE_ that GOTOFF code always carries.
+    In a shared object the referents must not be preemptible: there only the object's own PROTECTED globals are used.  -> (asm text, entries)"""
+    own_d, own_f = ["r64_a", "r64_b"], ["r64_f"]
+    if shared:
+        data_t, func_t = own_d, own_f
+    else:
+        data_t = own_d + ["ga", "gb", "gc_", "ext_a", "ext_b"]
+        func_t = own_f + [f"fn{k}" for k in range(nf)] + ["ext_f", "ext_g", "driver"]
+    entries = []
+    for form in ("pc64", "gotoff64"):
+        entries.append((form, r.choice(data_t), 0))
+        entries.append((form, r.choice(func_t), 0))
+        entries.append((form, r.choice(data_t + func_t), r.choice([0, 4, 8, 16, -8])))
+    for _ in range(r.range(0, 3)):
+        entries.append((r.choice(["pc64", "gotoff64"]), r.choice(data_t + func_t), r.choice([0, 0, 8, -4])))
+    order = list(range(len(entries)))
+    for i in range(len(order) - 1, 0, -1):
+        j = r.below(i + 1)
+        order[i], order[j] = order[j], order[i]
+    entries = [entries[i] for i in order]
+    vis = ".protected" if shared else "# default visibility:"
+    # own referents in a section of their own: `sym - .` inside one section is folded by the assembler and leaves no relocation
+    a = ["    .section .data.r64,\"aw\",@progbits\n    .p2align 3\n"]
+    for n in own_d:
+        a.append(f"    .globl {n}\n    {vis} {n}\n    .type {n},@object\n{n}:\n    .quad {r.below(1000)}\n    .size {n}, 8\n")
+    a.append("    .data\n    .p2align 3\n    .globl rel64_tab\n    .type rel64_tab,@object\nrel64_tab:\n.Lrel64_tab:\n")
+    for form, n, add in entries:
+        a.append(f"    .quad {n} - . {add:+d}\n" if form == "pc64" else f"    .quad {n}@GOTOFF {add:+d}\n")
+    a.append("    .size rel64_tab, . - rel64_tab\n    .text\n"
+             f"    .globl r64_f\n    {vis} r64_f\n    .type r64_f,@function\nr64_f:\n.Lr64_f:\n"
+             "    lea .Lrel64_tab(%rip), %rax\n    lea _GLOBAL_OFFSET_TABLE_(%rip), %rdx\n    add (%rax), %rdx\n    ret\n    .size r64_f, . - r64_f\n"
+             "    .section .init_array,\"aw\"\n    .p2align 3\n    .quad .Lr64_f\n")
+    return "".join(a), entries
 
 
 MODES = [
@@ -106,17 +160,20 @@ def run(ctx):
         d = os.path.join(ctx.scratch, f"b{bi}")
         os.makedirs(d, exist_ok=True)
         main, other = gen_sources(r.fork(), bi)
+        rr = runner.Rng((ctx.seed * 0x9E3779B1 + 0x3400 + bi) & ((1 << 64) - 1))   # own stream: does not shift the choices made for the older site kinds
+        rel64_asm, rel64_entries = gen_rel64(rr, main.count("__attribute__((noinline)) u64 fn"), mode == "shared")
         opt = r.choice(["-O1", "-O2", "-Os"])
         try:
             o1 = lu.cc_obj(d, "main", main, flags=[opt, "-ffreestanding", "-fno-stack-protector", "-fno-builtin"] + cflags)
             o2 = lu.cc_obj(d, "other", other, flags=[opt, "-ffreestanding", "-fno-stack-protector", "-fno-builtin"] + cflags)
+            o3 = lu.asm_obj(d, "rel64", rel64_asm)
         except RuntimeError as ex:
             ctx.count("gen", "compile-failed")
             continue
         x = os.path.join(d, "x.wild")
         ref = os.path.join(d, "x.ld")
-        rcw, _, ew = lu.link("wild", lflags + ["--write-layout", "--write-trace", "-o", x, o2, o1], cwd=d)
-        rcl, _, el = lu.link("ld", lflags + ["-o", ref, o2, o1], cwd=d)
+        rcw, _, ew = lu.link("wild", lflags + ["--write-layout", "--write-trace", "-o", x, o2, o1, o3], cwd=d)
+        rcl, _, el = lu.link("ld", lflags + ["-o", ref, o2, o1, o3], cwd=d)
         if rcw != 0 or rcl != 0:
             ctx.count("gen", "link-failed")
             ctx.sample({"link failed": (ew or el)[:300], "mode": mode})
@@ -220,5 +277,70 @@ def run(ctx):
                                        + " ".join(lflags) + " --write-layout --write-trace -o x.wild other.o main.o, re-apply the patch (site/new target above), "
                                        "then run the command",
                                "patch": {"file_offset_of_field": e.vaddr_to_off(s.field_addr), "field_size": s.size, "new_target": hex(na), "pc_relative_end": s.pcrel_end}})
+            os.unlink(cx)
+        # (iii) 8-byte RELATIVE references to named globals in .data: high-half-only corruptions and retargetings
+        rsites, problems = binview.rel64_sites(e, "rel64_tab", rel64_entries)
+        for pb in problems:
+            ctx.count("rel64-view", "entry-not-usable")
+            ctx.sample({"rel64 entry not usable (wild's stored value is not S+A-P / S+A-GOT: not C34's subject)": pb, "mode": mode})
+        if len(rsites) < 4:
+            ctx.broken.append(f"exploration: binary {bi} ({mode}) has only {len(rsites)} usable 8-byte relative sites: {problems[:3]}")
+        nrel = 6 if ctx.quick else 16
+        hows = ["high32-add", "retarget", "high32-bit", "high32-sub", "retarget", "high32-bit"]
+        by_form = {f: [s for s in rsites if s.form == f] for f in ("pc64", "gotoff64")}
+        for ri in range(nrel if rsites else 0):
+            cand = by_form[("pc64", "gotoff64")[ri % 2]] or rsites
+            s = rr.choice(cand)
+            how = hows[ri % len(hows)] if ri < len(hows) else rr.choice(hows)
+            bit, na, nn = None, None, None
+            if how == "high32-bit":
+                bit = rr.range(32, 63)
+            if how == "retarget":
+                is_func = any(a == s.target for a, n in funcs)
+                pool = [(a, n) for a, n in (funcs if is_func else objs) if abs(a - s.target) > 64]
+                if not pool:
+                    ctx.count("corruption", "not-applicable")
+                    continue
+                na, nn = rr.choice(pool)
+            res = binview.corrupt_rel64(e, data, s, how, new_target=na, bit=bit)
+            if res is None:
+                ctx.count("corruption", "not-applicable")
+                continue
+            nb, newval = res
+            cx = os.path.join(d, f"x.r{ri}")
+            copy_with_sidecars(x, cx)
+            with open(cx, "wb") as f:
+                f.write(nb)
+            os.chmod(cx, 0o755)
+            silent, reports = [], {}
+            for rname, rf in refs:
+                rc, out, err = run_ldiff(cx, rf)
+                reports[rname] = out[:600]
+                if quiet(rc, out):
+                    silent.append(rname)
+                else:
+                    ctx.count("rel64-report-key", f"rel.{s.reloc}" if f"rel.{s.reloc}" in out else ("literal-byte-mismatch" if "literal-byte-mismatch" in out else "other"))
+            cls = "high32" if how.startswith("high32") else "retarget"
+            ctx.note_case(("corrupt-rel64", bi, s.addr, how, bit, na))
+            ctx.count("corruption-rel64-" + s.form + "-" + cls, "missed" if silent else "detected")
+            ctx.count("rel64-referent", "function" if any(a == s.target for a, n in funcs) else "object")
+            if silent:
+                ctx.cov["impl_oracle_failures"] += 1
+                keep = os.path.join(ctx.replay_dir(), f"missed-rel64-{mode}-{bi}-{ri}")
+                os.makedirs(keep, exist_ok=True)
+                for f in [x, x + ".layout", x + ".trace", ref, cx, cx + ".layout", cx + ".trace", o1, o2, o3, os.path.join(d, "main.c"), os.path.join(d, "other.c"),
+                          os.path.join(d, "rel64.s")]:
+                    if os.path.exists(f):
+                        shutil.copy2(f, keep)
+                ctx.violation(f"c34:missed:rel64:{s.reloc}:{cls}",
+                              f"linker-diff silent on a corrupted 8-byte relative reference ({mode}): {s.reloc} to {s.target_name}{s.addend:+d} in rel64_tab @0x{s.addr:x}: "
+                              f"stored 0x{s.stored:016x} -> 0x{newval:016x} ({how}{'' if bit is None else ' bit ' + str(bit)}{'' if nn is None else ' to ' + nn}); "
+                              f"reference: {', '.join(silent)}",
+                              {"dir": keep, "binary": os.path.basename(x), "corrupted": os.path.basename(cx), "site": repr(s), "relocation": s.reloc,
+                               "referent": s.target_name, "addend": s.addend, "corruption": how, "bit": bit, "new_target": nn,
+                               "old_value": hex(s.stored), "new_value": hex(newval), "file_offset_of_field": e.vaddr_to_off(s.field_addr),
+                               "references_silent": silent, "command": cmd_base, "mode": mode, "reports": reports,
+                               "note": "the .layout file names the input objects by absolute path: to replay, relink with wild " + " ".join(lflags) +
+                                       " --write-layout --write-trace -o x.wild other.o main.o rel64.o, write new_value (8 bytes LE) at file_offset_of_field, run the command"})
             os.unlink(cx)
         shutil.rmtree(d, ignore_errors=True)
